@@ -174,6 +174,33 @@ def baddest_case(case):
                          'candidates': [(t['dest'], t['dest'] is None or t['dest'] in names) for t in ts
                                         if t['source'] == d.initial]}, 'C12.baddest:' + setup[0]))
             break
+    # destinations registered LATER: an evaluation made while a destination was unknown must not be remembered —
+    # once add_states has registered it the candidate counts like any other (and an earlier may_ leaves nothing behind)
+    missing = sorted(set(t['dest'] for _ev, ts in d.events for t in ts if t['dest'] is not None and t['dest'] not in names))
+    if missing and not out:
+        m = d.models[0]
+        r = make_run(with_history(d, [(MAY, m, ev) for ev, _ts in d.events]), setup)
+        r.run()
+        r.machine.add_states([flat.sname(x) for x in missing])
+        for ev, ts in d.events:
+            expected = False
+            for t in ts:
+                if t['source'] != d.initial:
+                    continue
+                if all(bool(d.script.get((c, 0), ((), ('ret', True)))[1][1]) == bool(tg) for c, tg in t['conds']):
+                    expected = True
+                    break
+            r.d.history = [(MAY, m, ev)]
+            r.run()
+            o = last_outcome(r.items)
+            n += 1
+            trues += int(expected)
+            got = (o[0] == 'ret' and o[2] == 1)
+            if o[0] == 'raised' or got != expected:
+                out.append(('may-wrong-after-the-destination-was-registered',
+                            {'setup': setup[0], 'event': ev, 'expected': expected, 'may': common.show_item(o),
+                             'registered_late': missing}, 'C12.baddest:' + setup[0]))
+                break
     return out, n, trues
 
 
